@@ -18,6 +18,8 @@ import (
 
 func init() { Registry["C07"] = c07 }
 
+var boundaryCases int
+
 // qeReportProblem: when no QE level matches, the reporting API must return an error.
 func qeReportProblem(c *world.Case, v *ref.Verdict) string {
 	no := false
@@ -357,6 +359,37 @@ func c07Jobs(x *mon.Ctx, base *world.World) []*world.Case {
 			emit(w, "level-isvsvn-above-16-bits", fmt.Sprint(i), exp)
 		}
 	}
+	// the boundary between two adjacent identity fields moved: both fields have the wrong length, by complementary amounts, and
+	// their concatenation is the one an honest identity has (attributes‖mrsigner, miscselect‖miscselectMask,
+	// attributes‖attributesMask, attributesMask‖mrsigner). Field lengths are part of the identity: every such document is refused
+	{
+		n := 0
+		for _, pair := range []struct {
+			name string
+			a, b func(w *world.World) *string
+		}{
+			{"attributes-mrsigner", func(w *world.World) *string { return &w.Qe.Attr }, func(w *world.World) *string { return &w.Qe.MrSigner }},
+			{"miscselect-miscselectmask", func(w *world.World) *string { return &w.Qe.Misc }, func(w *world.World) *string { return &w.Qe.MiscMask }},
+			{"attributes-attributesmask", func(w *world.World) *string { return &w.Qe.Attr }, func(w *world.World) *string { return &w.Qe.AttrMask }},
+			{"attributesmask-mrsigner", func(w *world.World) *string { return &w.Qe.AttrMask }, func(w *world.World) *string { return &w.Qe.MrSigner }},
+		} {
+			w0 := base.Clone()
+			fullID(w0)
+			cat := *pair.a(w0) + *pair.b(w0)
+			la := len(*pair.a(w0))
+			for _, cut := range []int{0, 2, la - 2, la + 2, len(cat) - 2, len(cat)} { // hex digits given to the first field
+				if cut == la || cut < 0 || cut > len(cat) {
+					continue
+				}
+				w := base.Clone()
+				fullID(w)
+				*pair.a(w), *pair.b(w) = cat[:cut], cat[cut:]
+				emit(w, "identity-field-boundary-moved", fmt.Sprintf("%s/first-field-gets-%d-of-%d-bytes", pair.name, cut/2, len(cat)/2), "reject")
+				n++
+			}
+		}
+		boundaryCases = n
+	}
 	// an incomplete signed identity (its matching level has no status, or it has no isvprodid) served together with an unsigned
 	// member that supplies what is missing: only what is signed counts
 	for name, mod := range map[string]func(w *world.World){
@@ -495,6 +528,7 @@ func c07(x *mon.Ctx) {
 	x.Require("mrsigner-bit", 0, 256, 256)
 	x.Require("level-without-status", 0, 6, 6)
 	x.Require("level-isvsvn-above-16-bits", 7, 21, 28)
+	x.Require("identity-field-boundary-moved", 0, boundaryCases, boundaryCases)
 	x.Require("deciding-level-with-odd-tcbdate", 0, 27, 36)
 	x.Require("unsigned-member-completes-signed-identity", 0, 30, 30)
 	x.Require("message-isvsvn-wider-than-signed", 0, 6, 6)
